@@ -79,3 +79,54 @@ func zzH01_varint_last() {
 	zzAssert(zzOr(len(enc) == 1, last != 0), "C01.varint.minimal")
 	zzReach("end")
 }
+
+// ---- H01.1 (compiler half): the static stack-effect table ----
+
+// zzStackRef is the effect of one instruction on the depth of the operand stack, written
+// from the stack pictures documented next to the opcode declarations ("x y EXCH y x").
+// ITERJMP: 0 on the exhausted (jump) edge; the +1 of the fall-through edge is accounted
+// for separately by the block layout code (isiterjmp).
+func zzStackRef(op Opcode, arg uint32) int {
+	switch op {
+	case NOP, EXCH, UPLUS, UMINUS, TILDE, ITERPOP, NOT, JMP, ITERJMP, MAKEFUNC, ATTR:
+		return 0
+	case DUP, NONE, TRUE, FALSE, MANDATORY, MAKEDICT, CONSTANT, LOCAL, FREE, FREECELL, LOCALCELL, GLOBAL, PREDECLARED, UNIVERSAL:
+		return +1
+	case DUP2:
+		return +2
+	case POP, LT, GT, GE, LE, EQL, NEQ, PLUS, MINUS, STAR, SLASH, SLASHSLASH, PERCENT, AMP, PIPE, CIRCUMFLEX, LTLT, GTGT, IN,
+		ITERPUSH, RETURN, INDEX, INPLACE_ADD, INPLACE_PIPE, CJMP, LOAD, SETLOCAL, SETGLOBAL, SETLOCALCELL:
+		return -1
+	case APPEND, SETFIELD:
+		return -2
+	case SETINDEX, SETDICT, SETDICTUNIQ, SLICE:
+		return -3
+	case MAKETUPLE, MAKELIST:
+		return 1 - int(arg)
+	case UNPACK:
+		return int(arg) - 1
+	case CALL:
+		return -(int(arg>>8) + 2*int(arg&0xff))
+	case CALL_VAR, CALL_KW:
+		return -(int(arg>>8) + 2*int(arg&0xff)) - 1
+	case CALL_VAR_KW:
+		return -(int(arg>>8) + 2*int(arg&0xff)) - 2
+	}
+	panic("zzStackRef: unknown opcode")
+}
+
+// zzH01_stackeffect: for every opcode and every operand value the compiler can emit
+// (element counts < 2^24; CALL: at most 255 positional and 255 named arguments),
+// insn.stackeffect() equals the documented effect.
+func zzH01_stackeffect() {
+	op := Opcode(zzChoice("op", int(OpcodeMax)+1))
+	arg := zzU32("arg")
+	zzAssume(arg < 1<<24)
+	in := insn{op: op, arg: arg}
+	se := in.stackeffect()
+	zzObserve("se", se)
+	zzAssert(se == zzStackRef(op, arg), "C01.stackeffect.table")
+	// every opcode has a name (the tables are indexed by opcode; a missing entry is silently 0/"")
+	zzAssert(opcodeNames[op] != "", "C01.stackeffect.named")
+	zzReach("end")
+}
